@@ -21,25 +21,30 @@ func init() {
 	}
 }
 
+func msgSx(d core.VerifCDecode) sx.V {
+	type fr struct {
+		slot int32
+		key  string
+		req  []byte
+	}
+	var frs []fr
+	for i := range d.Slots {
+		frs = append(frs, fr{d.Slots[i], d.FragKeys[i], d.FragReqs[i]})
+	}
+	sort.Slice(frs, func(i, j int) bool { return frs[i].slot < frs[j].slot })
+	var body []sx.V
+	for _, f := range frs {
+		body = append(body, sx.L(sx.N(int64(f.slot)), sx.S(f.key), sx.B(f.req)))
+	}
+	return sx.L(sx.N(int64(d.Type)), sx.Strs(d.Keys), sx.L(body...))
+}
+
 func runCDecode(limit int, b []byte) sx.V {
 	d := core.VerifDecodeClient(limit, b)
 	switch d.Outcome {
 	case "ok":
-		type fr struct {
-			slot int32
-			key  string
-			req  []byte
-		}
-		var frs []fr
-		for i := range d.Slots {
-			frs = append(frs, fr{d.Slots[i], d.FragKeys[i], d.FragReqs[i]})
-		}
-		sort.Slice(frs, func(i, j int) bool { return frs[i].slot < frs[j].slot })
-		var body []sx.V
-		for _, f := range frs {
-			body = append(body, sx.L(sx.N(int64(f.slot)), sx.S(f.key), sx.B(f.req)))
-		}
-		return sx.L(sx.S("ok"), sx.I(d.Consumed), sx.N(int64(d.Type)), sx.Strs(d.Keys), sx.L(body...))
+		m := sx.Items(msgSx(d))
+		return sx.L(append([]sx.V{sx.S("ok"), sx.I(d.Consumed)}, m...)...)
 	default:
 		return sx.L(sx.S(d.Outcome))
 	}
